@@ -328,7 +328,8 @@ def run_one(ch, env):
         if val.ndim == 3 and val.shape[2] == 4 and np.all(val[..., 3] == 0):
             continue
         expected[p] = val
-    on_disk = list_tiles(d, fmt)
+    from .c02 import all_positions
+    on_disk = list_tiles(d, fmt, pio=pio, candidates=all_positions(depth))
     if on_disk != set(expected):
         res["violation"] = viol(PROP, "tile-set-differs", "%s: tile files differ from the expected leaf set: missing %s, unexpected %s" % (
             what, sorted(tuple(p) for p in set(expected) - on_disk)[:6], sorted(tuple(p) for p in on_disk - set(expected))[:6]))
